@@ -100,6 +100,10 @@ pub struct Variant {
     /// order of the two entry points
     #[serde(default)]
     pub diag_first: bool,
+    /// build the project under another absolute root ("/p/..." -> "<root>/..."); the outputs are
+    /// compared after mapping the root back (the location of a checkout is not part of the sources)
+    #[serde(default)]
+    pub root: Option<String>,
 }
 
 #[derive(Serialize, Deserialize, Clone, Debug, PartialEq, Eq, Default)]
